@@ -36,8 +36,9 @@ func recValue(r keyvalue.FileRecord) int {
 type tCall struct {
 	kind string // get set abort commit
 	key  int
-	val  int // -1 = delete
-	h    int // 0 ok 1 fail 2 abort 3 abort+fail
+	val  int  // -1 = delete
+	h    int  // 0 ok 1 fail 2 abort 3 abort+fail
+	cc   bool // commit: the caller's context is already cancelled
 }
 
 var hbNames = []string{"HOk", "HFail", "HAbort", "HAbortFail"}
@@ -55,7 +56,7 @@ func (c tCall) coq() string {
 	case "abort":
 		return "TAbort"
 	}
-	return "TCommit"
+	return "TCommit " + cBool(c.cc)
 }
 
 func (c tCall) String() string {
@@ -64,6 +65,10 @@ func (c tCall) String() string {
 		return fmt.Sprintf("get k%d [%s]", c.key, hbNames[c.h])
 	case "set":
 		return fmt.Sprintf("set k%d=%d [%s]", c.key, c.val, hbNames[c.h])
+	case "commit":
+		if c.cc {
+			return "commit(cancelled ctx)"
+		}
 	}
 	return c.kind
 }
@@ -121,14 +126,16 @@ func genTxn(r *Rng) []tCall {
 		case 2:
 			cs = append(cs, tCall{kind: "abort"})
 		default:
-			cs = append(cs, tCall{kind: "commit"})
+			cs = append(cs, tCall{kind: "commit", cc: r.Intn(3) == 0})
 		}
 	}
-	// a transaction is always ended
+	// a transaction is always ended: by Abort, by Commit -- or, one time in five, only by a Commit whose
+	// context is already cancelled (the mem transaction ends and releases the store all the same; the
+	// serial fallback refuses and stays open, it holds nothing)
 	if r.Intn(4) == 0 {
 		cs = append(cs, tCall{kind: "abort"})
 	}
-	cs = append(cs, tCall{kind: "commit"})
+	cs = append(cs, tCall{kind: "commit", cc: r.Intn(5) == 0})
 	return cs
 }
 
@@ -283,10 +290,18 @@ func runC18(r *Rng, n int, replay string) {
 					refAborted = true
 					obs = append(obs, obsT{kind: "none"})
 				case "commit":
-					rs, err := txn.Commit(context.Background())
+					ctx := context.Background()
+					refused := false // the serial fallback checks the caller's context first and then does nothing
+					if cl.cc {
+						cctx, cancel := context.WithCancel(ctx)
+						cancel()
+						ctx = cctx
+						refused = which == "SerialTxn"
+					}
+					rs, err := txn.Commit(ctx)
 					if err != nil {
 						obs = append(obs, obsT{kind: "commiterr"})
-						if !refAborted {
+						if !refAborted && !refused {
 							c.fail(fmt.Sprintf("[%s] %s: Commit of a live transaction failed: %v", which, strings.Join(text, "; "), err), which+":commit-error")
 						}
 					} else {
@@ -316,7 +331,9 @@ func runC18(r *Rng, n int, replay string) {
 							}
 						}
 					}
-					refAborted = true
+					if !refused {
+						refAborted = true
+					}
 				}
 			}
 		}()
